@@ -160,7 +160,7 @@ class Subscriptions:
             Entity.subscribe_nested_property_change(ent, name, self._nested_cb(key, tag, raises))
 
     def _method_cb(self, key, tag, raises):
-        def cb(entity, *args, **kwargs):
+        def cb(entity, /, *args, **kwargs):
             m = self.mtypes.get(key)
             pos_t = [t for n, t in m['args'] if n is None] if m else []
             kw_t = {n: t for n, t in m['args'] if n is not None} if m else {}
@@ -187,10 +187,30 @@ class Subscriptions:
         return cb
 
 
+class _Discard(logging.Handler):
+    """formats every record (so that lazily formatted arguments are evaluated, as a real handler would) and throws it away"""
+
+    def emit(self, record):
+        try:
+            record.getMessage()
+        except Exception:
+            pass
+
+
 def play_stream(dialect, definitions, views, stream, strict, subs_spec=None, every=False):
     """-> dict in the shape of the model's `play` reply"""
     from replay_unpack.core.entity import Entity
-    logging.disable(logging.CRITICAL)
+    import zlib
+    # the logging configuration is part of the environment of a parse (the CLI offers --log_level DEBUG): one stream in three is
+    # played with the root logger at DEBUG and a handler that formats and discards, the others with logging disabled
+    root = logging.getLogger()
+    saved = (root.level, root.handlers[:])
+    if zlib.crc32(stream) % 3 == 0:
+        logging.disable(logging.NOTSET)
+        root.setLevel(logging.DEBUG)
+        root.handlers = [_Discard()]
+    else:
+        logging.disable(logging.CRITICAL)
     try:
         player, ctrl = make_player(dialect, definitions)
         subs = Subscriptions(subs_spec or {}, views)
@@ -250,4 +270,6 @@ def play_stream(dialect, definitions, views, stream, strict, subs_spec=None, eve
         return out
     finally:
         logging.disable(logging.NOTSET)
+        root.setLevel(saved[0])
+        root.handlers = saved[1]
         Entity.clear_subscriptions() if hasattr(Entity, 'clear_subscriptions') else None
